@@ -102,6 +102,17 @@ def generate(rng, tier):
             if rng.random() < 0.2:
                 files.append(('m/n.pyxis', rng.choice(SNIPPETS)))
             out.append(text_case('mut%d' % i, files, rng.choice([4, 8])))
+    # an impossible token at a known place: the build's parse error must name exactly that line and (1-based) column
+    import re as _re
+    from .c18 import semi_module
+    for i in range(max(10, n // 25)):
+        text, _mod = semi_module(rng)
+        ls = text.split('\n')
+        cand = [(li, m_.start()) for li, l_ in enumerate(ls) if not l_.startswith('///') and '"' not in l_ for m_ in _re.finditer(r' ', l_)]
+        if not cand: continue
+        li, col = rng.choice(cand)
+        ls[li] = ls[li][:col] + ' $ ' + ls[li][col + 1:]
+        out.append(case('junkpos%d' % i, rng.choice([4, 8]), [tmodule('m.pyxis', '\n'.join(ls))], extras=[[S('junk-at'), li + 1, col + 2]]))
     from . import rare
     out += rare.vftable_cases() + rare.impl_cases() + rare.base_cases() + rare.derive_cases()
     for i in range(n // 10):
@@ -160,6 +171,9 @@ def judge(c, impl, model):
                     fs.append(Finding('O', 'C12/parse-error-without-position', cid, msg[:200]))
                 else:
                     f_, l_, c_ = m.group(1), int(m.group(2)), int(m.group(3))
+                    ja = find(c, 'junk-at')
+                    if ja is not None and (l_, c_) != (ja[1], ja[2]):
+                        fs.append(Finding('O', 'C12/parse-error-position-not-at-the-offending-token', cid, 'the `$` is at %d:%d, the build says %d:%d' % (ja[1], ja[2], l_, c_)))
                     if f_ not in texts or not (1 <= l_ <= texts[f_].count('\n') + 2):
                         fs.append(Finding('O', 'C12/parse-error-position-outside-file', cid, msg[:200]))
                     else:
@@ -173,6 +187,8 @@ def judge(c, impl, model):
                         if c_ < 1 or (l_ <= len(lines_) and c_ > len(lines_[l_ - 1]) + 2):
                             fs.append(Finding('O', 'C12/parse-error-column-outside-line', cid, msg[:200]))
                 info['nontrivial'] = info.get('nontrivial', False)
+    if find(c, 'junk-at') is not None and outcome_class(impl.get('o3')) == 'ok':
+        fs.append(Finding('O', 'C12/impossible-token-accepted', cid, ''))
     o2 = impl.get('o2')
     if tag(o2) == 'resolved' and len(find(o2, 'items')) - 1 >= 2:
         info['nontrivial'] = True
